@@ -79,7 +79,7 @@ def literal_tie(ctx, n_numbers: int):
     for t in numbers:
         d, b = G.coq_dec(t), G.float_bias(t)
         exprs.append(f"(option_map S_ (render_float (fun _ => {b}) {d}), S_ (py_repr {d}), float_roundtrips {b} {d}, float_roundtrip_domain {d})")
-    res = coq_eval(G.DEC_HEADER, exprs, "c24_num", shard=max(50, len(exprs) // 16 + 1))
+    res = coq_eval(G.DEC_HEADER, exprs, "c24_num", shard=max(120, len(exprs) // 16 + 1))
     n_bad = 0
     dom_hist = {"in-domain": 0, "outside": 0}
     by_cls: Dict[str, List[dict]] = {}
@@ -147,7 +147,7 @@ def literal_tie(ctx, n_numbers: int):
         want.append(_handle_literal(bv))
     exprs.append("option_map to_N (render_literal (fun _ => Eq) LNull)")
     want.append("null")
-    res = coq_eval(G.DEC_HEADER, exprs, "c24_lit", shard=max(50, len(exprs) // 16 + 1))
+    res = coq_eval(G.DEC_HEADER, exprs, "c24_lit", shard=max(150, len(exprs) // 16 + 1))
     bad = [(w, r) for w, r in zip(want, res) if r is None or G.py_bytes(r[1]).decode("utf-8") != w]
     ctx.oblige(f"L: render_literal = _handle_literal on {len(ints)} integers, {len(strs)} strings, booleans, null", not bad, str(bad[:3]))
     # and they round-trip through the real parser
